@@ -54,6 +54,14 @@ func main() {
 	verbose := flag.Bool("v", false, "print every obligation")
 	dump := flag.String("dump", "", "debug: pkg:Type.Method or pkg:Func to interpret symbolically and dump paths")
 	flag.Parse()
+	if *dump == "emitspec" {
+		dumpEmitSpec(*repo)
+		return
+	}
+	if strings.HasPrefix(*dump, "emit:") {
+		dumpEmit(*repo, strings.TrimPrefix(*dump, "emit:"))
+		return
+	}
 	if *dump != "" {
 		dumpPaths(*repo, *dump)
 		return
@@ -391,4 +399,64 @@ func dumpPaths(repo, spec string) {
 		}
 		fmt.Printf("    rets=%v und=%v\n", pr.rets, pr.st.und)
 	}
+}
+
+func dumpEmit(repo, method string) {
+	c, err := load(repo, loadCfg{Name: "default"})
+	if err != nil {
+		fmt.Println(err)
+		return
+	}
+	e := newEmitEngine(c)
+	arms, err := e.arms(method, "node")
+	if err != nil {
+		fmt.Println(err)
+		return
+	}
+	var keys []string
+	for k := range arms {
+		keys = append(keys, k)
+	}
+	sort.Strings(keys)
+	for _, k := range keys {
+		fmt.Printf("== %s (%d paths)\n", k, len(arms[k]))
+		var lines []string
+		for _, p := range arms[k] {
+			l := pathString(p)
+			if len(p.und) > 0 {
+				l += "   UND: " + strings.Join(p.und, "; ")
+			}
+			lines = append(lines, l)
+		}
+		sort.Strings(lines)
+		for _, l := range lines {
+			fmt.Println("   ", l)
+		}
+	}
+}
+
+// dumpEmitSpec prints Go source for emitspec_data.go from the tree's current traces (to be reviewed by hand).
+func dumpEmitSpec(repo string) {
+	c, err := load(repo, loadCfg{Name: "default"})
+	if err != nil {
+		fmt.Println(err)
+		return
+	}
+	arms, err := allArmTraces(c)
+	if err != nil {
+		fmt.Println(err)
+		return
+	}
+	fmt.Println("package main\n\n// Reference emission schemes per AST node form. Generated once from the pinned tree with\n// `gpycheck -dump emitspec`, then reviewed line by line against the Language Reference (evaluation order)\n// and CPython 3.4 Python/compile.c (compiler_visit_expr / compiler_visit_stmt and helpers); see DESIGN.md.\n// Labels are numbered by first appearance; LOOP(x){a | b} lists the alternative iterations over x.\n\nfunc init() {")
+	for _, a := range arms {
+		if a.method == "compileAst" || a.arm == "default" {
+			continue
+		}
+		fmt.Printf("\temitSpec[%q] = []string{\n", a.method+"|"+a.arm)
+		for _, p := range a.paths {
+			fmt.Printf("\t\t%q,\n", p)
+		}
+		fmt.Println("\t}")
+	}
+	fmt.Println("}")
 }
